@@ -171,3 +171,6 @@ func VerifC05_BlueGreenCloneSetInitializeKeepsTheSavedSettings() {
 	}
 	verifrt.Cover("C05.bgcloneset.reinitialize.done")
 }
+
+// The same with every API call allowed to fail (a failed HPA lookup is not "the workload has no HPA").
+func VerifC05_BlueGreenCloneSetFinalizeRestoresHPAWhateverFails() { c05Finalize(true, "C05") }
